@@ -221,7 +221,10 @@ float truncf(float);
 double trunc(double);
 #define verif_truncf(x) truncf(x)
 #define verif_trunc(x) trunc(x)
+/* makes goto-instrument --add-library link CBMC's models even when they are only used inside contract clauses */
+static inline void verif_lib_anchor(void) { float f__ = roundf(0.5f) + floorf(0.5f) + ceilf(0.5f) + truncf(0.5f); double d__ = round(0.5) + floor(0.5) + ceil(0.5) + trunc(0.5); (void)f__; (void)d__; }
 #else
+#define verif_lib_anchor() ((void)0)
 #define verif_sqrtf(x) __builtin_sqrtf(x)
 #define verif_sqrt(x) __builtin_sqrt(x)
 #define verif_sinf(x) __builtin_sinf(x)
